@@ -456,6 +456,21 @@ def signature(log):
     return h.hexdigest()[:16]
 
 
+def _single_path(specs, nid, extra_edges=None):
+    """True if there is exactly one route from a source to this node (every node on the way has a single upstream)"""
+    extra = extra_edges or []
+    seen = set()
+    while nid in specs and nid not in seen:
+        seen.add(nid)
+        ups = list(specs[nid].get('ups', [])) + [u for u, v in extra if v == nid]
+        if specs[nid]['op'] == 'source':
+            return not ups
+        if len(ups) != 1:
+            return False
+        nid = ups[0]
+    return False
+
+
 def local_checks(case, ar, check_md=True):
     """Local + edge oracle of DESIGN 1.4 on the recorded history.
     Returns (violations [(clause, op, detail)], counters {})."""
@@ -485,6 +500,16 @@ def local_checks(case, ar, check_md=True):
             if len(started) != len(called):
                 bad('sink-awaitable-not-awaited-exactly-once', nid,
                     {'called': len(called), 'started': len(started)})
+            elif not _single_path(specs, nid, prog.get('extra_edges')):
+                pass        # deliveries that reach the consumer by different routes within one walk may legitimately be started in another order
+            elif [e[5] for e in started] != sorted(e[5] for e in started):
+                # what a coroutine-style consumer sees is the order in which its bodies begin to run: the awaitables the
+                # pipeline collected must be started in the order of the deliveries
+                bump('sink_body_order_checked')
+                bad('consumer-bodies-begin-out-of-delivery-order', nid,
+                    {'kind': spec.get('kind'), 'delivered': [_v(e[4]) for e in called][:20], 'bodies_began_with': [_v(e[4]) for e in started][:20]})
+            else:
+                bump('sink_body_order_checked')
             continue
         if op in ('buffer', 'delay', 'rate_limit'):
             bump('identity_nodes_checked')
